@@ -109,6 +109,10 @@ type chunkedReader struct {
 
 func (c *chunkedReader) Read(p []byte) (int, error) {
 	if len(c.data) == 0 {
+		if !c.eofWith && c.max%3 == 1 {
+			// the source ends with a hard error instead of end-of-file (a dropped connection): what was read is still handled
+			return 0, io.ErrUnexpectedEOF
+		}
 		return 0, io.EOF
 	}
 	n := 1 + c.rng.Intn(c.max)
